@@ -9,6 +9,7 @@ mod c01;
 mod c03;
 mod c05;
 mod c10;
+mod c11;
 mod c12;
 mod c14;
 mod c15;
@@ -35,6 +36,9 @@ fn main() {
         "human_float" => c15::human_float(rest),
         "human_count" => c15::human_count(rest),
         "formatted_duration" => c15::formatted_duration(rest),
+        "render_keys" => c11::render_keys(rest),
+        "render_wide" => c11::render_wide(rest),
+        "render_lines" => c11::render_lines(rest),
         "template_total" => c10::template_total(rest),
         "template_order" => c10::template_order(rest),
         _ => format!("{{\"found\": false, \"error\": \"unknown routine {}\"}}", routine),
